@@ -106,6 +106,11 @@ impl Prop for C11Prop {
                 selections.push(Some(ids));
             }
         }
+        // the whole-graph query is not always the first one (a subset query may be the first call after a mutation)
+        if selections.len() > 1 {
+            let at = rng.below(selections.len());
+            selections.swap(0, at);
+        }
         let in_range = |label: &str, v: f64, node: &String, cx: &mut Ctx| -> bool {
             if !(v >= 0.0 && v <= 1.0 + 1e-12) {
                 cx.fail("C11.range", &format!("{} outside [0,1]", label), format!("{}({:?}) = {} lies outside [0,1]", label, node, v));
@@ -271,7 +276,7 @@ impl Prop for C11Prop {
         }
     }
     fn rule(&self) -> String {
-        "single-edge graphs, directed and undirected, with and without self-loops, isolated and degree-1 nodes, n <= 16 (cliques, G(n,p), stars, grids, bipartite, lifecycle-built), unweighted or positive weights (dyadic, integer, decimal), under 3 (quick) / 5 (thorough) hash keyings; clustering (undirected, Fagiolo directed, Onnela weighted), average_clustering, triangles, transitivity, generalized_degree, square_clustering vs the definitions at 1e-9, coefficients in [0,1], for all nodes and for random non-empty proper subsets (keys = subset, values = full computation); one case in eight is a multi-edge graph, which must be refused with WrongMethod; directed graphs must be refused by the undirected-only functions. distinct_nontrivial = distinct graphs containing a triangle; one case in 800 is a dense graph (1-3 blocks, 60-300 nodes) with 2 100 - 12 500 stored edges under a pool of 2-16 workers (strategy thresholds); in a third of the cases a battery of valid unjudged calls runs first on a sibling graph (same names and edges, other node order), in a fifth the graph is queried on the same object before its last one to three operations are applied (DESIGN.md 0.2); square_clustering is not called on graphs of more than 6 000 edges (minutes per call)".into()
+        "single-edge graphs, directed and undirected, with and without self-loops, isolated and degree-1 nodes, n <= 16 (cliques, G(n,p), stars, grids, bipartite, lifecycle-built), unweighted or positive weights (dyadic, integer, decimal), under 3 (quick) / 5 (thorough) hash keyings; clustering (undirected, Fagiolo directed, Onnela weighted), average_clustering, triangles, transitivity, generalized_degree, square_clustering vs the definitions at 1e-9, coefficients in [0,1], for all nodes and for random non-empty proper subsets (keys = subset, values = full computation); one case in eight is a multi-edge graph, which must be refused with WrongMethod; directed graphs must be refused by the undirected-only functions. distinct_nontrivial = distinct graphs containing a triangle; one case in 800 is a dense graph (1-3 blocks, 60-300 nodes) with 2 100 - 12 500 stored edges under a pool of 2-16 workers (strategy thresholds); in a third of the cases a battery of valid unjudged calls runs first on a sibling graph (same names and edges, other node order), in a fifth the graph is queried on the same object before its last one to three operations are applied (DESIGN.md 0.2); square_clustering is not called on graphs of more than 6 000 edges (minutes per call); the graph object stays at one address from its first operation to the last judged call; on three dense graphs in four whose last operations replace weights in place (same counts; the first replacement moves the largest or the smallest weight) the object is queried (whole graph and subset, weighted) just before those replacements; the whole-graph query is at a random position among the judged selections".into()
     }
     fn assumptions(&self) -> Vec<String> {
         vec!["weighted clustering: either max-weight convention is accepted when a self-loop carries the largest weight".into(), "average_clustering over an empty counted set is not checked (0/0)".into(), "square_clustering (no error channel) is exercised on undirected graphs only".into()]
